@@ -822,7 +822,7 @@ def _defect8_seed():
 
 def scenarios(rng, tier):
     yield _defect8_seed()
-    n = 420 if tier == 'quick' else 2600
+    n = 3000 if tier == 'quick' else 24000
     for i in range(n):
         yield _gen_scenario(rng, tier, 'b' if i % 6 == 5 else 'a')
 
@@ -1101,8 +1101,8 @@ def oracle(scn, res):
             for n, o in saves.get(i, []):
                 if n <= sidx:
                     src = o
-            if src is None or not _same(_expected_entry(specs[i], src), entry):
-                continue        # entry from the initial storage, or already reported by the clauses above
+            if src is None:
+                continue        # entry from the initial storage: no first-circuit state to compare with
             exp = rs['exps'][i]
             is_expired = exp is not None and (exp <= 0 or (isinstance(stamp, float) and us_of(stamp) + exp < now2))
             kind = spec2['kind']
